@@ -4,6 +4,7 @@ package props
 // withdrawal addresses decode to exactly the script they encode.
 
 import (
+	"github.com/ethereum/go-ethereum/core/types/goattypes"
 	"bytes"
 	"encoding/hex"
 	"fmt"
@@ -383,6 +384,9 @@ type AddrAppCase struct {
 	EvmSeed int    `json:"evm_seed"`
 	Value   uint64 `json:"value"`
 	Pos     int    `json:"pos"`
+	// ParamUpdate: 0 none; 1 tax, 2 confirmations, 3 minimum deposit requested by the execution layer; +4 = the request is
+	// processed after the address was handed out (otherwise before). Addresses must not depend on it.
+	ParamUpdate int `json:"param_update,omitempty"`
 }
 
 func runAddrApp(c AddrAppCase) Outcome {
@@ -395,6 +399,34 @@ func runAddrApp(c AddrAppCase) Outcome {
 	defer f.close()
 	sim := f.sim
 	evm := evmOf(c.EvmSeed)
+	paramUpdate := func() *Failure {
+		br := goattypes.BridgeRequests{}
+		switch c.ParamUpdate % 4 {
+		case 1:
+			br.DepositTax = []*goattypes.DepositTaxRequest{{Rate: 30, Max: 0}}
+		case 2:
+			br.Confirmation = []*goattypes.ConfirmationNumberRequest{{Number: 1}}
+		case 3:
+			br.MinDeposit = []*goattypes.MinDepositRequest{{Satoshi: 20_000}}
+		}
+		r, err := sim.Step(world.StepOpts{DT: 5 * time.Second, Proposer: -1, Eth: world.EthBlockOpts{Plan: world.BuildPlan{Requests: br.Encode()}}})
+		if err != nil {
+			return failf("block-processing", "block-failed", "%v", err)
+		}
+		if r.Resp.TxResults[0].Code != 0 {
+			return failf("block-processing", "eth-block-message-failed", "%s", r.Resp.TxResults[0].Log)
+		}
+		return nil
+	}
+	if c.ParamUpdate%4 != 0 {
+		o.Classes = append(o.Classes, fmt.Sprintf("param-update-%d/after-handout=%v", c.ParamUpdate%4, c.ParamUpdate >= 4))
+	}
+	if c.ParamUpdate%4 != 0 && c.ParamUpdate < 4 {
+		if fl := paramUpdate(); fl != nil {
+			o.Fail = fl
+			return o
+		}
+	}
 	var resp bitcointypes.QueryDepositAddressResponse
 	qerr := sim.Node.Query("/goat.bitcoin.v1.Query/DepositAddress", &bitcointypes.QueryDepositAddress{Version: uint32(c.Version % 2), EvmAddress: fmt.Sprintf("0x%x", evm)}, &resp)
 	if c.Version%2 == 1 && c.Schnorr {
@@ -411,6 +443,17 @@ func runAddrApp(c AddrAppCase) Outcome {
 	if err != nil {
 		o.Fail = failf("handout", "address-undecodable", "%q: %v", resp.Address, err)
 		return o
+	}
+	if c.ParamUpdate%4 != 0 && c.ParamUpdate >= 4 {
+		if fl := paramUpdate(); fl != nil {
+			o.Fail = fl
+			return o
+		}
+		var again bitcointypes.QueryDepositAddressResponse
+		if err := sim.Node.Query("/goat.bitcoin.v1.Query/DepositAddress", &bitcointypes.QueryDepositAddress{Version: uint32(c.Version % 2), EvmAddress: fmt.Sprintf("0x%x", evm)}, &again); err != nil || again.Address != resp.Address {
+			o.Fail = failf("handout", "address-changed-by-parameter-update", "after a bridge parameter request the address for the same key and EVM address is %q (%v), before it was %q", again.Address, err, resp.Address)
+			return o
+		}
 	}
 	outs := []*wire.TxOut{wire.NewTxOut(int64(50_000+c.Value%1_000_000), script)}
 	if c.Version%2 == 1 {
@@ -467,10 +510,10 @@ func TestC17_App(t *testing.T) {
 	RunProp(t, Prop[AddrAppCase]{
 		ID: "C17", Name: "app", Quick: 96, Thor: 3000,
 		Gen: func(t *rapid.T) AddrAppCase {
-			return AddrAppCase{Schnorr: rapid.Bool().Draw(t, "schnorr"), Version: rapid.IntRange(0, 1).Draw(t, "version"), EvmSeed: rapid.IntRange(0, 1<<20).Draw(t, "evm"),
+			return AddrAppCase{ParamUpdate: rapid.SampledFrom([]int{0, 0, 1, 2, 3, 5, 6, 7}).Draw(t, "paramUpdate"), Schnorr: rapid.Bool().Draw(t, "schnorr"), Version: rapid.IntRange(0, 1).Draw(t, "version"), EvmSeed: rapid.IntRange(0, 1<<20).Draw(t, "evm"),
 				Value: rapid.Uint64Range(0, 1<<30).Draw(t, "value"), Pos: rapid.IntRange(0, 2).Draw(t, "pos")}
 		},
 		Run:  runAddrApp,
-		Rule: "app slice: Query/DepositAddress on a live chain (ECDSA or Schnorr bridge key, version 0/1, random EVM address) -> independent decoder -> a model Bitcoin transaction paying that script in a block whose hash is voted at run time -> MsgNewDeposits must be credited for exactly that EVM address and rejected for a one-bit-different one; version 1 with a Schnorr key must not be handed out",
+		Rule: "app slice: Query/DepositAddress on a live chain (ECDSA or Schnorr bridge key, version 0/1, random EVM address) -> independent decoder -> a model Bitcoin transaction paying that script in a block whose hash is voted at run time -> MsgNewDeposits must be credited for exactly that EVM address and rejected for a one-bit-different one; version 1 with a Schnorr key must not be handed out; in 3/4 of the cases an execution-layer bridge parameter request (tax, confirmations or minimum deposit) is processed before or after the hand-out, which must change neither the address nor its acceptance",
 	})
 }
